@@ -238,13 +238,18 @@ Definition window_ticks (w : Z) : Z := 1 + zlen (reset_tabs (Z.max (Z.min w 132)
 
 (* ---- DCS: parse_hex_macro_sequence with counters (characters read + characters appended by repeat groups) --------------------------------- *)
 Definition repeat_cost (n : Z) (s : list Z) : Z := Z.max 0 n * zlen s.
+(* characters appended by a group: nothing when push_repeat_group refuses it *)
+Definition group_cost (rec rep_rec : list Z) (rep_n : Z) : Z := match push_group rec rep_rec rep_n with Some _ => repeat_cost rep_n rep_rec | None => 0 end.
 Fixpoint hex_macro_t (s : list Z) (stt : hexst) (read_repeat : bool) (rep_rec : list Z) (rep_n : Z) (rec : list Z) (k : Z) : option (list Z) * Z :=
   match s with
-  | [] => (Some (if read_repeat then rec ++ repeat_str rep_n rep_rec else rec), if read_repeat then k + repeat_cost rep_n rep_rec else k)
+  | [] => (hex_finish read_repeat rep_rec rep_n rec, if read_repeat then k + group_cost rec rep_rec rep_n else k)
   | ch :: r =>
     match stt with
     | HFirst =>
-      if (ch =? 59) && read_repeat then hex_macro_t r HFirst false rep_rec rep_n (rec ++ repeat_str rep_n rep_rec) (k + 1 + repeat_cost rep_n rep_rec)
+      if (ch =? 59) && read_repeat then match push_group rec rep_rec rep_n with
+                                        | Some rec' => hex_macro_t r HFirst false rep_rec rep_n rec' (k + 1 + repeat_cost rep_n rep_rec)
+                                        | None => (None, k + 1)          (* refused before anything is appended *)
+                                        end
       else if ch =? 33 then hex_macro_t r (HRepeat 0) read_repeat rep_rec rep_n rec (k + 1)
       else hex_macro_t r (HSecond ch) read_repeat rep_rec rep_n rec (k + 1)
     | HSecond f =>
@@ -257,6 +262,29 @@ Fixpoint hex_macro_t (s : list Z) (stt : hexst) (read_repeat : bool) (rep_rec : 
     | HRepeat n =>
       if is_digit ch then hex_macro_t r (HRepeat (parse_next_number n ch)) read_repeat rep_rec rep_n rec (k + 1)
       else if ch =? 59 then hex_macro_t r HFirst true [] n rec (k + 1)
+      else (None, k + 1)
+    end
+  end.
+(* the parser BEFORE the fix (no size limit): every group is expanded whatever its count *)
+Fixpoint hex_macro_t_before_fix (s : list Z) (stt : hexst) (read_repeat : bool) (rep_rec : list Z) (rep_n : Z) (rec : list Z) (k : Z) : option (list Z) * Z :=
+  match s with
+  | [] => (Some (if read_repeat then rec ++ repeat_str rep_n rep_rec else rec), if read_repeat then k + repeat_cost rep_n rep_rec else k)
+  | ch :: r =>
+    match stt with
+    | HFirst =>
+      if (ch =? 59) && read_repeat then hex_macro_t_before_fix r HFirst false rep_rec rep_n (rec ++ repeat_str rep_n rep_rec) (k + 1 + repeat_cost rep_n rep_rec)
+      else if ch =? 33 then hex_macro_t_before_fix r (HRepeat 0) read_repeat rep_rec rep_n rec (k + 1)
+      else hex_macro_t_before_fix r (HSecond ch) read_repeat rep_rec rep_n rec (k + 1)
+    | HSecond f =>
+      match hex_val f, hex_val (to_upper ch) with
+      | Some a, Some b => let cc := a * 16 + b in
+                          if read_repeat then hex_macro_t_before_fix r HFirst read_repeat (rep_rec ++ [cc]) rep_n rec (k + 1)
+                          else hex_macro_t_before_fix r HFirst read_repeat rep_rec rep_n (rec ++ [cc]) (k + 1)
+      | _, _ => (None, k + 1)
+      end
+    | HRepeat n =>
+      if is_digit ch then hex_macro_t_before_fix r (HRepeat (parse_next_number n ch)) read_repeat rep_rec rep_n rec (k + 1)
+      else if ch =? 59 then hex_macro_t_before_fix r HFirst true [] n rec (k + 1)
       else (None, k + 1)
     end
   end.
